@@ -170,6 +170,15 @@ func c11Drivers() []c11Driver {
 		"乙.zn": "导入“丙”\n如何乙法？\n    输出1",
 		"丙.zn": "导入“甲”\n如何丙法？\n    输出1",
 	}})
+	// two imports that both fail: the first one is the one reported, every time (executed 40 times
+	// under the default order: what decides here is no map)
+	ds = append(ds, c11Driver{Name: "repeat-two-missing-imports", Kind: "files", Files: map[string]string{
+		"主.zn": "导入“无甲”\n导入“无乙”\n输出1",
+	}})
+	ds = append(ds, c11Driver{Name: "repeat-invalid-then-missing-import", Kind: "files", Files: map[string]string{
+		"主.zn": "导入“坏”\n导入“无乙”\n输出1",
+		"坏.zn": strings.Repeat("注：说明说明说明说明\n", 20000) + "\xff",
+	}})
 	// HTTP handler: request headers and query parameters become dictionaries
 	ds = append(ds, c11Driver{Name: "http-headers", Kind: "http",
 		Source: "输入当前请求\n输出【当前请求之头部之所有索引，当前请求之查询参数之所有索引】",
@@ -320,7 +329,7 @@ func init() {
 	mc.Register(&mc.Check{
 		ID:    "C11",
 		Level: "model_checking",
-		Rule:  "E3: stateless deviation-bounded DFS over map-iteration-order choices. Every range-over-map site of the interpreter (inventoried from the current source with go/types by tools/mapperm and rewritten through a build overlay) is a choice point at each dynamic occurrence with n! alternatives for n <= 3 keys (rotations + reversal above); deviation = an occurrence not in sorted order; bounds 0,1,2 (3 in thorough). Driver programs per site with >= 3 keys and contents chosen so that order matters if it can: dictionary 为/不为/==//= with equal key sets under all 8 patterns of differing values, nested, 包含/寻找 of dictionaries; the same with the right-hand keys reversed, and with an entry that cannot be compared (an object) at each position x every pattern of differing entries x same / reversed key order; parsed JSON documents of every shape with 1..2 top-level members over {scalar, object of 3, list of objects, object in object}, shown and re-generated, also as HTTP JSON request bodies; 所有索引/iteration; 生成JSON; object creation with 3 defaults; library and module imports (all names, colliding names, cycles); HTTP request headers/query (also names that differ only in case) and response headers; expression inputs; failing file-library calls. Every driver is also executed twice under the default order. Oracle: all executions of one driver are identical in result, display trace and error (class, code, message, rendered report incl. lines). A state = one complete execution under one order vector.",
+		Rule:  "E3: stateless deviation-bounded DFS over map-iteration-order choices. Every range-over-map site of the interpreter (inventoried from the current source with go/types by tools/mapperm and rewritten through a build overlay) is a choice point at each dynamic occurrence with n! alternatives for n <= 3 keys (rotations + reversal above); deviation = an occurrence not in sorted order; bounds 0,1,2 (3 in thorough). Driver programs per site with >= 3 keys and contents chosen so that order matters if it can: dictionary 为/不为/==//= with equal key sets under all 8 patterns of differing values, nested, 包含/寻找 of dictionaries; the same with the right-hand keys reversed, and with an entry that cannot be compared (an object) at each position x every pattern of differing entries x same / reversed key order; parsed JSON documents of every shape with 1..2 top-level members over {scalar, object of 3, list of objects, object in object}, shown and re-generated, also as HTTP JSON request bodies; 所有索引/iteration; 生成JSON; object creation with 3 defaults; library and module imports (all names, colliding names, cycles); HTTP request headers/query (also names that differ only in case) and response headers; expression inputs; failing file-library calls. Every driver is also executed twice under the default order (two drivers whose imports both fail: 40 times). Oracle: all executions of one driver are identical in result, display trace and error (class, code, message, rendered report incl. lines). A state = one complete execution under one order vector.",
 		Assumptions: []string{
 			"only hash-map iteration order is controlled (the source the statement names); Go select, goroutine scheduling and rand are not (取随机数 is excepted by the statement)",
 			"order vectors with more deviations than the bound are not covered; sites no driver reaches are listed in evidence, not reported as violations",
@@ -368,12 +377,18 @@ func init() {
 				}, c.Expired)
 				// the same order vector once more: the same execution (what no map order explains:
 				// a random name, a clock, an address in a message)
-				n += mc.Explore(0, func(rec *mc.Recorder) {
-					o := c11RunOnce(d, rec)
-					if _, ok := outcomes[o]; !ok {
-						outcomes[o] = rec.Choices()
-					}
-				}, c.Expired)
+				again := 1
+				if strings.HasPrefix(d.Name, "repeat-") {
+					again = 40
+				}
+				for i := 0; i < again; i++ {
+					n += mc.Explore(0, func(rec *mc.Recorder) {
+						o := c11RunOnce(d, rec)
+						if _, ok := outcomes[o]; !ok {
+							outcomes[o] = rec.Choices()
+						}
+					}, c.Expired)
+				}
 				c.EvalN(n, n)
 				c.Stat("states", n)
 				c.Stat("traces_validated_against_impl", n)
